@@ -1647,12 +1647,12 @@ func (a *fnAnalysis) call(st *rstate, x *ssa.Call) {
 				}
 				if cv, ok := a.e.ctxRet(callee, args, lens); ok {
 					v = cv
-					// AX-SEARCHHIT through a search helper: in a declared function the searched name is found,
-					// and the vocabularies searched are 1-based
-					if a.e.searchHit[fname(a.fn)] && isSearchHelper(callee) {
-						if m := meetVal(v, rangeVal(1, pinf)); !m.bot {
-							v = m.withAx(v.ax | axBit("AX-SEARCHHIT"))
-						}
+				}
+				// AX-SEARCHHIT through a search helper: in a declared function the searched name is found,
+				// and the vocabularies searched are 1-based
+				if a.e.searchHit[fname(a.fn)] && isSearchHelper(callee) && !v.bot {
+					if m := meetVal(v, rangeVal(1, pinf)); !m.bot {
+						v = m.withAx(v.ax | axBit("AX-SEARCHHIT"))
 					}
 				}
 			}
@@ -2093,11 +2093,44 @@ func (a *fnAnalysis) assign(st *rstate, v ssa.Value, nv aval, depth int) {
 				a.assign(st, x.X, meetVal(cur, addVal(nv, constVal(k))).keepAx(cur, nv), depth+1)
 			}
 		}
+		// k*y or y*k with a positive constant k: y lies between the bounds divided by k
+		if x.Op == token.MUL && !nv.bot {
+			for _, pr := range [][2]ssa.Value{{x.X, x.Y}, {x.Y, x.X}} {
+				c, ok := pr[0].(*ssa.Const)
+				if !ok || c.Value == nil || c.Value.Kind() != constant.Int {
+					continue
+				}
+				k, _ := constant.Int64Val(c.Value)
+				if _, otherConst := pr[1].(*ssa.Const); otherConst || k <= 0 {
+					continue
+				}
+				lo, hi := nv.lo(), nv.hi()
+				if lo != ninf {
+					lo = -floorDiv64(-lo, k) // ceil(lo/k)
+				}
+				if hi != pinf {
+					hi = floorDiv64(hi, k)
+				}
+				if lo <= hi {
+					cur := a.get(st, pr[1])
+					a.assign(st, pr[1], meetVal(cur, rangeVal(lo, hi)).keepAx(cur, nv), depth+1)
+				}
+				break
+			}
+		}
 	case *ssa.Convert:
 		if isIntType(x.X.Type()) {
 			a.assign(st, x.X, nv, depth+1)
 		}
 	}
+}
+
+func floorDiv64(a, k int64) int64 {
+	q := a / k
+	if (a%k != 0) && ((a < 0) != (k < 0)) {
+		q--
+	}
+	return q
 }
 
 func (a aval) keepAx(x, y aval) aval {
@@ -2168,7 +2201,7 @@ func phiOfCall(phi *ssa.Phi) string {
 // isSearchHelper: an unexported function of a (string, []string) pair, in either order, that returns
 // the loop counter of a linear scan where it finds the string, and the constant 0 otherwise.
 func isSearchHelper(fn *ssa.Function) bool {
-	if fn.Object() == nil || fn.Object().Exported() || len(fn.Params) != 2 || fn.Signature.Results().Len() != 1 || !isIntType(fn.Signature.Results().At(0).Type()) {
+	if fn.Object() == nil || fn.Object().Exported() || len(fn.Params) < 1 || len(fn.Params) > 2 || fn.Signature.Results().Len() != 1 || !isIntType(fn.Signature.Results().At(0).Type()) {
 		return false
 	}
 	nStr, nSl := 0, 0
@@ -2180,7 +2213,21 @@ func isSearchHelper(fn *ssa.Function) bool {
 			nSl++
 		}
 	}
-	if nStr != 1 || nSl != 1 {
+	if nSl == 0 && len(fn.Params) == 1 {
+		// the vocabulary may be a package-level table the helper searches itself
+		for _, b := range fn.Blocks {
+			for _, ins := range b.Instrs {
+				if ld, ok := ins.(*ssa.UnOp); ok && ld.Op == token.MUL {
+					if g, ok := ld.X.(*ssa.Global); ok {
+						if sl, ok := g.Type().(*types.Pointer).Elem().Underlying().(*types.Slice); ok && isStringType(sl.Elem()) {
+							nSl++
+						}
+					}
+				}
+			}
+		}
+	}
+	if nStr != 1 || nSl < 1 {
 		return false
 	}
 	counter, zero := false, false
